@@ -188,11 +188,24 @@ def check(chk, repo, tier):
         k: "".join(sorted(x for x in lp.heads_of(k) if len(x) == 1))[:40]
         for k in lp.kinds if k != "GENERAL"})
 
+    prefixes = lp.neutral_prefixes()
+    chk.unit("neutral context characters (class representatives)",
+             "".join(prefixes))
+    if len(prefixes) < 5:
+        raise AnalysisError("fewer than 5 context characters found by "
+                            "probing the lexer")
+
     def one_token(construct, key, where, line=None):
         ok, why = lp.lexes_as_one_general(key)
         chk.ob("C20.lexes-as-one-token", construct, ok,
                f"{key!r} is not scanned as one GENERAL token: {why}",
                where, line, sample={"key": key, "why": why})
+        if ok:
+            ok2, a, got = lp.lexes_as_one_general_after(key, prefixes)
+            chk.ob("C20.lexes-as-one-token-in-context", construct, ok2,
+                   f"after {a!r} the key {key!r} is not its own token: "
+                   f"{(a or '') + key!r} is scanned as {got}", where, line,
+                   witness=(a or "") + key)
 
     for key, knode, _ in el_entries:
         one_token(f"elements[{key!r}]", key, EF, knode.lineno)
